@@ -1,4 +1,5 @@
 """C06 (FRAME), C08 (reuse), C11 (size bounds): rules on generate_internal and its callees."""
+import re
 import emission as E
 import rules_pvm as PV
 import gen_analysis as GA
@@ -7,7 +8,7 @@ import harness as H
 import callgraph as CG
 from framework import Result
 from interp import Interp, explore
-from values import Agg, Box_, Ref, Sym, is_sym, bounds, Unanalysable
+from values import Agg, Box_, Bytes, Payload, Ref, Sym, err, is_sym, bounds, Unanalysable
 
 
 def gen_leaves(env, ver):
@@ -304,20 +305,48 @@ def rule_C08(env):
         k = prog.find(ep)
 
         def one_ep(run, k=k):
-            I = Interp(prog, run, mf(), stubs={k_gi0: lambda I, kk, a: _ok(_Opaque("bytes"))})
+            results = []
+
+            def st_gi(I, kk, a):
+                c = I.run.choose(2, "generate_internal ok")
+                r = _Opaque("pickle#%d" % len(results))
+                results.append(r)
+                I.run.event("gi_call")
+                return _ok(r) if c == 0 else err(_Opaque("eyre::Report"))
+            I = Interp(prog, run, mf(), stubs={k_gi0: st_gi})
             h = ctx.make_generator(depth_bound=2)
-            one_ep.last = h
+            one_ep.last = (h, results, None)
             body = prog.bodies[k]
-            args = [h.ref()] + [Ref(Box_(_Opaque("data"), "data"), ()) for _ in range(body["arg_count"] - 1)]
-            I.call(k, args)
-            return h
-        for run, h, pe in explore(one_ep, max_runs=200):
+            args = [h.ref()]
+            for i in range(2, body["arg_count"] + 1):
+                ty = str(body["locals"][i].get("ty", ""))
+                if ty in ("&[u8]", "&'a [u8]") or re.fullmatch(r"&('\w+ )?\[u8\]", ty):
+                    data = Bytes([("pay", Payload("bytes", range(256), Sym("data_len", (), "usize", 0, 1 << 20), origin="entry_data"))], False)
+                    args.append(Ref(Box_(data, "data"), ()))
+                else:
+                    args.append(Ref(Box_(_Opaque("arg%d" % i), "arg"), ()))
+            r = I.call(k, args)
+            return (h, results, r)
+        for run, hh, pe in explore(one_ep, max_runs=400):
             res.count("R08.entry-config")
-            h = h if h is not None else one_ep.last
+            h, results, r = hh if hh is not None else one_ep.last
             ch = h.config_changes()
             if ch:
                 res.add("R08.c", "%s/config-written/%s" % (ep.split("::")[-1], ",".join(ch)),
                         "%s overwrites configuration field(s) %s: later calls on the same generator see a different configuration" % (ep, ch), env.loc(k))
+            if pe is not None:
+                continue
+            # every successful return is the result of exactly one generate_internal call made by THIS call
+            if getattr(r, "vname", None) == "Ok":
+                if len(results) != 1 or r.fields[0] is not results[0]:
+                    res.add("R08.a", "%s/returns-without-generating" % ep.split("::")[-1],
+                            "%s can return Ok with a value that is not the result of exactly one generate_internal call of this call "
+                            "(%d calls on the path): the bytes then come from an earlier call" % (ep, len(results)), env.loc(k))
+            # unknown fields read as left by the previous call although some generation code writes them
+            for fld in h.extra_gen_read_at_entry(run.atom_log, h.out.writes):
+                if fld in written or fld in h.extra_gen_changed():
+                    res.add("R08.a", "%s/%s-read-before-reset" % (ep.split("::")[-1], fld),
+                            "%s reads Generator.%s as left by the previous call (the field is written during generation calls)" % (ep, fld), env.loc(k))
     # entry points pass through generate_internal exactly once; statics with interior mutability
     cg = CG.CallGraph(prog)
     k_gi = prog.find("::generate_internal")
@@ -403,7 +432,7 @@ def rule_C11(env):
             if hi is mn:
                 # taken when range == 0, i.e. max <= min
                 okshape = True
-            elif is_sym(hi) and hi.op == "add" and hi.args[0] is mn and is_sym(hi.args[1]):
+            elif is_sym(hi) and hi.op in ("add", "sat_add") and hi.args[0] is mn and is_sym(hi.args[1]):
                 d = hi.args[1]
                 rel = d.attrs.get("rel") or []
                 ra = d.attrs.get("rel_args") or []
